@@ -159,7 +159,10 @@ pub(super) mod udp {
     use octo_squirrel::protocol::vmess::header::RequestCommand;
     use octo_squirrel::protocol::vmess::header::RequestHeader;
     use octo_squirrel::protocol::vmess::header::SecurityType;
+    #[cfg(not(octo_squirrel_verif))]
     use tokio::net::TcpStream;
+    #[cfg(octo_squirrel_verif)]
+    use octo_squirrel::verif::net::TcpStream;
     use tokio_rustls::client::TlsStream;
     use tokio_util::bytes::BytesMut;
     use tokio_util::codec::Framed;
